@@ -235,10 +235,33 @@ const cub = 24 // grid 2^-24 for the sampled polyline and the query points
 
 func cunits(f float64) int64 { return int64(math.Round(f * (1 << cub))) }
 
+// y values at which the path generated last has a curve running parallel to the ray while crossing it (extra queries)
+var flatInflectionY []float64
+
 func curvedPath(r *rng.R) (*canvas.Path, string) {
+	flatInflectionY = nil
 	g := func(lo, hi int) float64 { return float64(r.Range(lo*4, hi*4)) / 4 }
 	p := &canvas.Path{}
-	switch r.Intn(7) {
+	switch r.Intn(8) {
+	case 7: // a cubic with a stationary inflection whose tangent is horizontal (y' = y'' = 0 at t = 1/2: the curve is parallel to the
+		// ray there and still crosses it), running left-to-right or right-to-left, closed by lines above or below
+		ym, d := g(-3, 3), g(1, 4)
+		xa, xb := g(-8, -2), g(2, 8)
+		x1, x2 := xa+float64(r.Range(0, 8))/4, xb-float64(r.Range(0, 8))/4
+		h := g(2, 5)
+		if r.Bool() {
+			h = -h - 2*d
+		}
+		p.MoveTo(xa, ym+d)
+		p.CubeTo(x1, ym-d, x2, ym+d, xb, ym-d)
+		p.LineTo(xb, ym+d+h)
+		p.LineTo(xa, ym+d+h)
+		p.Close()
+		if r.Bool() {
+			p = p.Reverse()
+		}
+		flatInflectionY = append(flatInflectionY, ym)
+		return p, "flat-inflection"
 	case 0: // closed chain of quadratics
 		n := r.Range(2, 4)
 		p.MoveTo(g(-8, 8), g(-8, 8))
@@ -350,6 +373,9 @@ func curveMode(seed uint64, n, only int) {
 			if r.P(1, 2) {
 				qs = append(qs, q{(b.X0 + b.X1) / 2, s.Y, "level-with-endpoint-inside"})
 			}
+		}
+		for _, y := range flatInflectionY {
+			qs = append(qs, q{b.X0 - 1.25, y, "level-with-flat-inflection"}, q{b.X1 + 1.25, y, "level-with-flat-inflection-right"})
 		}
 		tb := p.Bounds() // rays tangent to the extrema of the curves
 		qs = append(qs, q{b.X0 - 2, tb.Y1, "tangent-at-top"}, q{b.X0 - 2, tb.Y0, "tangent-at-bottom"}, q{(b.X0 + b.X1) / 2, tb.Y1, "tangent-at-top-mid"})
